@@ -1,3 +1,4 @@
+import NibabelModel.Model.C04
 /-! GENERATED from /repo by harness/props/c04.py (regen) — do not edit by hand. -/
 namespace Nb.C04.Gen
 def n1QuatThr : Rat := (3 : Rat) / 8388608
@@ -14,4 +15,16 @@ def spmFlipWrite : List Int := [-1, 1, 1, 1]
 /-- `nibabel.nifti1.xform_codes`: every valid code with its string aliases -/
 def xformTable : List (Nat × List String) := [(0, ["NIFTI_XFORM_UNKNOWN", "unknown"]), (1, ["NIFTI_XFORM_SCANNER_ANAT", "scanner"]), (2, ["NIFTI_XFORM_ALIGNED_ANAT", "aligned"]), (3, ["NIFTI_XFORM_TALAIRACH", "talairach"]), (4, ["NIFTI_XFORM_MNI_152", "mni"]), (5, ["NIFTI_XFORM_TEMPLATE_OTHER", "template"])]
 def xformCodes : List Nat := xformTable.map (·.1)
+/-- body of `Nifti1Header.get_best_affine` (nibabel/nifti1.py) of the working tree -/
+def skBestAffine : Sk :=
+  (.act "hdr = self._structarr" (.ite "hdr['sform_code'] != 0" (.ret "self.get_sform()") (.ite "hdr['qform_code'] != 0" (.ret "self.get_qform()") (.ret "self.get_base_affine()"))))
+/-- body of `SpatialImage.update_header` (nibabel/spatialimages.py) of the working tree -/
+def skUpdateHeader : Sk :=
+  (.act "hdr = self._header" (.act "shape = self._dataobj.shape" (.ite "hdr.get_data_shape() != shape" (.act "hdr.set_data_shape(shape)" (.ite "self._affine is None" (.ret "") (.ite "np.allclose(self._affine, hdr.get_best_affine())" (.ret "") (.act "self._affine2header()" (.ret ""))))) (.ite "self._affine is None" (.ret "") (.ite "np.allclose(self._affine, hdr.get_best_affine())" (.ret "") (.act "self._affine2header()" (.ret "")))))))
+/-- body of `Spm99AnalyzeImage.to_file_map` (nibabel/spm99analyze.py) of the working tree -/
+def skSpmWrite : Sk :=
+  (.ite "file_map is None" (.act "file_map = self.file_map" (.act "super().to_file_map(file_map, dtype=dtype)" (.act "mat = self._affine" (.ite "mat is None" (.ret "") (.act "hdr = self._header" (.ite "hdr.default_x_flip" (.act "M = np.dot(np.diag([-1, 1, 1, 1]), mat)" (.act "from_111 = np.eye(4)" (.act "from_111[:3, 3] = -1" (.act "M = np.dot(M, from_111)" (.act "mat = np.dot(mat, from_111)" (.act "with file_map['mat'].get_prepare_fileobj(mode='wb') as mfobj" (.act "sio.savemat(mfobj, {'M': M, 'mat': mat}, format='4')" (.ret "")))))))) (.act "M = mat" (.act "from_111 = np.eye(4)" (.act "from_111[:3, 3] = -1" (.act "M = np.dot(M, from_111)" (.act "mat = np.dot(mat, from_111)" (.act "with file_map['mat'].get_prepare_fileobj(mode='wb') as mfobj" (.act "sio.savemat(mfobj, {'M': M, 'mat': mat}, format='4')" (.ret "")))))))))))))) (.act "super().to_file_map(file_map, dtype=dtype)" (.act "mat = self._affine" (.ite "mat is None" (.ret "") (.act "hdr = self._header" (.ite "hdr.default_x_flip" (.act "M = np.dot(np.diag([-1, 1, 1, 1]), mat)" (.act "from_111 = np.eye(4)" (.act "from_111[:3, 3] = -1" (.act "M = np.dot(M, from_111)" (.act "mat = np.dot(mat, from_111)" (.act "with file_map['mat'].get_prepare_fileobj(mode='wb') as mfobj" (.act "sio.savemat(mfobj, {'M': M, 'mat': mat}, format='4')" (.ret "")))))))) (.act "M = mat" (.act "from_111 = np.eye(4)" (.act "from_111[:3, 3] = -1" (.act "M = np.dot(M, from_111)" (.act "mat = np.dot(mat, from_111)" (.act "with file_map['mat'].get_prepare_fileobj(mode='wb') as mfobj" (.act "sio.savemat(mfobj, {'M': M, 'mat': mat}, format='4')" (.ret ""))))))))))))))
+/-- body of `Spm99AnalyzeImage.from_file_map` (nibabel/spm99analyze.py) of the working tree -/
+def skSpmRead : Sk :=
+  (.act "ret = super().from_file_map(file_map, mmap=mmap, keep_file_open=keep_file_open)" (.ite "try-raises OSError: matf = file_map['mat'].get_prepare_fileobj()" (.ret "ret") (.act "matf = file_map['mat'].get_prepare_fileobj()" (.act "with matf" (.act "contents = matf.read()" (.ite "len(contents) == 0" (.ret "ret") (.act "mats = sio.loadmat(BytesIO(contents))" (.ite "'mat' in mats" (.act "mat = mats['mat']" (.ite "mat.ndim > 2" (.act "warnings.warn('More than one affine in \"mat\" matrix, using first')" (.act "mat = mat[:, :, 0]" (.act "ret._affine = mat" (.act "to_111 = np.eye(4)" (.act "to_111[:3, 3] = 1" (.act "ret._affine = np.dot(ret._affine, to_111)" (.ret "ret"))))))) (.act "ret._affine = mat" (.act "to_111 = np.eye(4)" (.act "to_111[:3, 3] = 1" (.act "ret._affine = np.dot(ret._affine, to_111)" (.ret "ret"))))))) (.ite "'M' in mats" (.act "hdr = ret._header" (.ite "hdr.default_x_flip" (.act "ret._affine = np.dot(np.diag([-1, 1, 1, 1]), mats['M'])" (.act "to_111 = np.eye(4)" (.act "to_111[:3, 3] = 1" (.act "ret._affine = np.dot(ret._affine, to_111)" (.ret "ret"))))) (.act "ret._affine = mats['M']" (.act "to_111 = np.eye(4)" (.act "to_111[:3, 3] = 1" (.act "ret._affine = np.dot(ret._affine, to_111)" (.ret "ret"))))))) (.raise "ValueError"))))))))))
 end Nb.C04.Gen
